@@ -81,4 +81,10 @@ CLAIMS = {
         "note": "Trusted: Lean kernel (decide +kernel on a finite table); schedules of the real worker threads are sampled, not quantified; sha2 not exercised.",
         "technique": "Lean 4 theorem (finite table, decide +kernel) + configuration-matrix differential of identical histories",
     },
+    "C06": {
+        "text": "witnessSpec (Lean) is the specified witness; T6.1/T6.2: every path it contains verifies against the base root and attests exactly the session's view for its key (all sets, all keys); T6.3: replaying witnessed writes through verify_update over any checked set of verified paths yields the root of the updated set (from the fully proved T8.3). The real witness of generated sessions (1..64 workers, overlays, mixed batches) must equal witnessSpec in canonical form and is verified / replayed with the real verifier. Re-found and repaired F3 (operations attached to the wrong paths with more than one worker).",
+        "design_ref": "§4 C06",
+        "note": "Trusted: Lean kernel; Hasher.Sound; the structural lemma that witnessSpec's grouped paths pass checkPaths is not yet a theorem (held by the differential + replay oracle); worker/page_walker sibling patching is not modelled.",
+        "technique": "Lean 4 theorems (specified proofs verify/attest; update replay = new root) + canonical witness equality differential + real-verifier replay oracle",
+    },
 }
